@@ -47,7 +47,8 @@ class JSONReader(TextToModel):
 def parse_tree(parent: Optional[Feature], feature_node: Dict[str, Any]) -> Feature:
     """Parse the tree structure and returns the root feature."""
     feature_name = feature_node['name']
-    is_abstract = feature_node['abstract']
+    # the writer stores the flag as text ('True'/'False'); also accept a JSON boolean
+    is_abstract = str(feature_node['abstract']).lower() == 'true'
     feature = Feature(name=feature_name, parent=parent, is_abstract=is_abstract)
 
     parse_attributes(feature, feature_node)
